@@ -1441,7 +1441,9 @@ func emitProvenance(repo, out string) error {
 	var sb strings.Builder
 	sb.WriteString("-- GENERATED by tools/go2lean (provenance.go) from /repo's working tree. Do not edit.\n")
 	sb.WriteString("namespace GoSecs.Gen\n\n")
-	fmt.Fprintf(&sb, "-- may-alias analysis reached its fixed point after %d rounds over %d functions\n\n", rounds+1, len(w.funcs))
+	// (the number of rounds depends on map iteration order and is not printed: the generated file is deterministic)
+	_ = rounds
+	fmt.Fprintf(&sb, "-- may-alias analysis run to its fixed point over %d functions\n\n", len(w.funcs))
 	sb.WriteString("/-- (pkg.Type.Method | pkg.Func, result position, provenance class) for every exported-name function of\n")
 	sb.WriteString("    secs2, hsms and internal/wire whose result is a slice, array, pointer-to-array or string. -/\n")
 	sb.WriteString("def returnProvenance : List (String × String × String) := [\n")
